@@ -251,4 +251,12 @@ theorem discover_all_arguments_spec (P : List Obj) (hwf : WF P) (outs : List Ent
   rw [List.contains_iff_mem]
   exact freeArgs_spec P hwf outs houts a
 
+/-- The same with the *executable* hypothesis: `wfb` is evaluated by the driver on every program the
+    correspondence runs (and must be `true`), so the hypothesis is checked, not assumed, there. -/
+theorem discover_all_arguments_spec_checked (P : List Obj) (hwf : wfb P = true) (outs : List Entry)
+    (houts : ∀ e ∈ outs, e.obj < P.length) (a : Nat) :
+    dependsOn P outs a = true ↔
+      (∃ e ∈ outs, Reach P e.obj a) ∧ ArgObj P a ∧ ¬ ∃ e ∈ outs, Bound P e.obj a :=
+  discover_all_arguments_spec P ((wfb_iff P).mp hwf) outs houts a
+
 end C03
